@@ -4,9 +4,10 @@ from vlib import common as C
 from vlib.framework import Corr
 from harness import layoutlib as L
 from harness import bigalloc as BIG
+from harness import translib as T
 
 META = {
-    "drivers": ["driver"],
+    "drivers": ["driver", "impcheck"],
     "rule": "case = (template, width, arguments); non-trivial: round_pow2 with i >= 3, ipow with b >= 2 and e >= 2; curve_len: box with >= 2 cells. "
             "Exhaustive ranges (np2rle, ipowall8) evaluate every value of the type and count one case per value",
     "trusted_base": ["integer promotion semantics of g++ for uint8_t/uint16_t arithmetic"],
@@ -239,7 +240,24 @@ def gen(ctx):
 
 def run(ctx):
     lines, rle, all8, allocs = gen(ctx)
-    return evaluate(ctx, lines, rle, all8, allocs, ["dbg", "rel"], big=True)
+    # the tie through translation: round_pow2 / ipow as written are the terms the theorems Covfie.Imp.*_translated are about
+    tie = T.Tie(ctx, ["round_pow2", "ipow"])
+    if tie.changed():
+        class Deep:      # the thorough tier's inputs for a kernel whose text changed
+            quick, seed = False, ctx.seed
+        dl, drle, _, _ = gen(Deep)
+        for k, kinds in (("round_pow2", ("np2", "np2s")), ("ipow", ("ipow",))):
+            if not tie.changed(k):
+                continue
+            lines += [l for l in dl if l.split()[0] in kinds]
+            for (w, sc, ar), new, ref in tie.counterexamples(k):
+                lines.append(f"np2 {w} {sc['i']}" if k == "round_pow2" else f"ipow {w} {sc['i']} {sc['p']}")
+        if tie.changed("round_pow2"):
+            rle = drle
+        lines = list(dict.fromkeys(lines))
+    corr = evaluate(ctx, lines, rle, all8, allocs, ["dbg", "rel"], big=True)
+    tie.merge(corr)
+    return corr
 
 
 def replay(ctx):
